@@ -189,7 +189,13 @@ func (am AppModule) EndBlock(ctx sdk.Context, _ abci.RequestEndBlock) []abci.Val
 	// TODO: for v1 use mode==1, just check the failed feeders
 	_, failed, sealed := agc.SealRound(ctx, forceSeal)
 	for _, feederID := range sealed {
-		am.keeper.RemoveNonceWithFeederIDForValidators(ctx, feederID, agc.GetValidators())
+		if forceSeal {
+			// the validator set has just been updated: agc.GetValidators() no longer lists the validators
+			// that left, so their nonce entries would stay in the store (and be honoured by the ante handler) for ever
+			am.keeper.RemoveNonceWithFeederIDForAll(ctx, feederID)
+		} else {
+			am.keeper.RemoveNonceWithFeederIDForValidators(ctx, feederID, agc.GetValidators())
+		}
 	}
 	// append new round with previous price for fail-seal token
 	for _, tokenID := range failed {
